@@ -13,12 +13,13 @@ RULE = ("exhaustive part: base in {0,1,3} x count in {0..4} x every presence mas
         "with count >= 1 on a fixed-window roller or a delete/count-0 roll of an existing file; distinct = "
         "distinct case line")
 ASSUMPTIONS = [
-    "no OS error other than NotFound occurs (no permission problems, no directory sitting at an archive name); "
-    "move_file's copy+delete fallback is therefore not exercised",
+    "no OS error other than NotFound and EXDEV occurs (no permission problems, no directory sitting at an archive name)",
     "gzip is observed through decompression in the harness (decompress(compress x) = x is flate2's contract)",
     "$ENV references in patterns are to variables whose values contain no '$', '{' or '}' (general expansion is C19)",
     "archive names are pairwise distinct and differ from the rolled file's path (true for every generated pattern)",
     "debug profile (overflow checks on), background_rotation feature off",
+    "move_file's copy+delete fallback is exercised only when /dev/shm is a different device than the temp directory "
+    "(cases whose file or pattern lives under xm/); otherwise those cases degrade to ordinary renames",
 ]
 EXHAUSTIVE = {"quick": False, "thorough": False}
 TRUSTED = ["libc dup2-based stdout silencing in the harness (the crate println!s on a failed final step)"]
@@ -82,6 +83,15 @@ def cases(rng, tier):
             present = [i for i in range(b - 1, min(U32, b + c + 1))]
             for pres in (present, present[::2], []):
                 out.append(mk(0, b, c, pattern, "app.log", pres, [[1, b"n%d" % k] for k in range(c + 2)]))
+    # active file and archives on DIFFERENT mounts (harness: `xm/` is a symlink into /dev/shm when
+    # that is another device): rename fails with EXDEV, move_file falls back to copy + remove.
+    # Contents shrink from roll to roll so that a destination that is not replaced wholesale shows.
+    for (pattern, file) in (("a.{}.log", "xm/app.log"), ("xm/a.{}.log", "app.log"), ("xm/z.{}.gz", "logs/cur.log")):
+        for b in (0, 1):
+            for c in (1, 2, 3):
+                for present in ([], [b], list(range(b, b + c))):
+                    ops = [[1, b"first-and-longest-content;"], [1, b"second;"], [1, b""], [1, b"4th"], [1, b"x" * 40]]
+                    out.append(mk(0, b, c, pattern, file, present, ops[: c + 3]))
     # delete roller
     for pattern in ("a.{}.log",):
         for present in ([], [0, 1]):
